@@ -40,11 +40,14 @@ type c08Case struct {
 	NotifyDrop int      `json:"notify_drops"`
 	PredAtJoin string   `json:"pred_of_S_at_join"`
 	Err        string   `json:"join_err"`
+	DataKeys    int     `json:"data_keys_in_ring,omitempty"`
+	ExportFails int     `json:"storage_failures_during_hand_over,omitempty"`
+	ExportsHit  int     `json:"storage_failures_that_fired,omitempty"`
 }
 
 func TestC08(t *testing.T) {
 	rec := ev.New(t, "C08")
-	rec.Rule("rapid-generated rings of 1..5 real LocalNodes (adversarial id layouts) in the ring simulator; scenario pred-nil: the predecessor of a chosen node S is crash-stopped, S runs its predecessor check (predecessor becomes nil) and the next k Notify calls to S are dropped (k generated) so the state persists while every other node repairs its routing; scenario plain: stable ring incl. single node whose predecessor is itself. Then a joiner (id inside S's range, adjacent to S or to its predecessor, uniform, or DUPLICATE of an existing id) runs the real Join through S or another live member. Oracle: no handler panic; valid joiner gets nil or an error with ErrorIsRetryable; duplicate id never joins; afterwards S is Active and serves Put/Get. Non-trivial: predecessor of S was nil or S itself when the join was issued. Distinct = distinct (ids, scenario, S, joiner, entry, k).")
+	rec.Rule("rapid-generated rings of 1..5 real LocalNodes (adversarial id layouts) in the ring simulator; scenario pred-nil: the predecessor of a chosen node S is crash-stopped, S runs its predecessor check (predecessor becomes nil) and the next k Notify calls to S are dropped (k generated) so the state persists while every other node repairs its routing; scenario plain: stable ring incl. single node whose predecessor is itself. Then a joiner (id inside S's range, adjacent to S or to its predecessor, uniform, or DUPLICATE of an existing id) runs the real Join through S or another live member. Oracle: no handler panic; valid joiner gets nil or an error with ErrorIsRetryable; duplicate id never joins; afterwards S is Active and serves Put/Get. One case in three stores 8..40 keys through the ring first and lets the storage of the joiner's successor fail the first 0..3 exports of the hand-over (the request must then be refused retryably, and the joiner's own retries get it in). Non-trivial: predecessor of S was nil or S itself when the join was issued, or the hand-over hit a storage failure. Distinct = distinct (ids, scenario, S, joiner, entry, k).")
 	rec.Assume("transport errors caused by the crash-stopped node itself are not answers of the contacted node (counted as inconclusive)")
 	const sigPanic = "request-to-join-panics-on-nil-predecessor"
 	// scenario tier: the predecessor is dropped while the join request waits inside the node
@@ -113,6 +116,10 @@ func TestC08(t *testing.T) {
 			EntryIdx:   rapid.IntRange(0, 4).Draw(t, "entry"),
 			EntryIsS:   rapid.Bool().Draw(t, "entryIsS"),
 		}
+		if rapid.IntRange(0, 2).Draw(t, "withData") == 0 {
+			p.DataKeys = rapid.IntRange(8, 40).Draw(t, "dataKeys")
+			p.ExportFails = rapid.SampledFrom([]int{0, 1, 1, 2, 3}).Draw(t, "exportFails")
+		}
 		c08Run(t, rec, p, sigPanic)
 	})
 }
@@ -129,6 +136,10 @@ type c08Params struct {
 	DupOf      int      `json:"dup_of"`
 	EntryIdx   int      `json:"entry_idx"`
 	EntryIsS   bool     `json:"entry_is_s"`
+	// DataKeys keys are stored through the ring before anything else happens; ExportFails: the
+	// contacted successor's storage fails the first n exports of the hand-over to the joiner
+	DataKeys    int `json:"data_keys,omitempty"`
+	ExportFails int `json:"export_fails,omitempty"`
 }
 
 type tfail interface {
@@ -156,8 +167,15 @@ func c08Run(t tfail, rec *ev.Recorder, p c08Params, sigPanic string) {
 		rec.Inconclusive("ring-not-converged")
 		return
 	}
+	for i := 0; i < p.DataKeys; i++ {
+		key := []byte(fmt.Sprintf("c08-data-%d", i))
+		if err := retryKV(func() error { return r.members[ids[0]].Node.Put(context.Background(), key, []byte("d")) }); err != nil {
+			rec.Inconclusive("data-set-up-failed")
+			return
+		}
+	}
 	sorted := sortedIDs(ids)
-	cs := c08Case{IDs: ids, Scenario: "plain"}
+	cs := c08Case{IDs: ids, Scenario: "plain", DataKeys: p.DataKeys, ExportFails: p.ExportFails}
 	si := p.SIdx % len(sorted)
 	cs.S = sorted[si]
 	predID := sorted[(si-1+len(sorted))%len(sorted)]
@@ -282,6 +300,13 @@ func c08Run(t tfail, rec *ev.Recorder, p c08Params, sigPanic string) {
 		cs.PredAtJoin = "other"
 	}
 
+	if p.ExportFails > 0 {
+		// whichever member turns out to be the joiner's successor: its storage fails the first
+		// exports of the hand-over
+		for _, m := range r.live() {
+			m.KV.FailNextExports(p.ExportFails)
+		}
+	}
 	var joinErr error
 	if dup {
 		// a duplicate joiner cannot be registered next to the live node with the same id:
@@ -299,9 +324,20 @@ func c08Run(t tfail, rec *ev.Recorder, p c08Params, sigPanic string) {
 	if joinErr != nil {
 		cs.Err = joinErr.Error()
 	}
-	nt := cs.PredAtJoin != "other"
-	rec.Case(nt, fmt.Sprintf("%v|%s|%d|%d|%d|%d", ids, cs.Scenario, cs.S, j, cs.Entry, cs.NotifyDrop), func() any { return cs },
-		"scenario:"+cs.Scenario, "joiner:"+kind, "pred-at-join:"+cs.PredAtJoin, fmt.Sprintf("join-ok:%v", joinErr == nil))
+	labels := []string{"scenario:" + cs.Scenario, "joiner:" + kind, "pred-at-join:" + cs.PredAtJoin, fmt.Sprintf("join-ok:%v", joinErr == nil)}
+	if p.ExportFails > 0 {
+		for _, m := range r.live() {
+			if left := m.KV.ExportFailuresLeft(); left < p.ExportFails {
+				cs.ExportsHit += p.ExportFails - left
+			}
+			m.KV.FailNextExports(0)
+		}
+		if cs.ExportsHit > 0 {
+			labels = append(labels, "hand-over-hit-a-storage-failure")
+		}
+	}
+	nt := cs.PredAtJoin != "other" || cs.ExportsHit > 0
+	rec.Case(nt, fmt.Sprintf("%v|%s|%d|%d|%d|%d|%d|%d", ids, cs.Scenario, cs.S, j, cs.Entry, cs.NotifyDrop, p.DataKeys, p.ExportFails), func() any { return cs }, labels...)
 
 	if n := r.net.Panics.Load(); n > 0 {
 		if ev.Known("C08", sigPanic) {
